@@ -695,7 +695,6 @@ where
     };
     let inp = tri::mk_inputs(&mut rng, &pts);
     let gu = *rng.pick(&GUARANTEES);
-    if std::env::var("C10_DBG").is_ok() { eprintln!("[{:.1}] start D{} {} n={} cs={} {:?}", ctx.elapsed(), D, fam_name, pts.len(), cs, gu); }
     let mut base = json!({"property": P, "case_seed": cs.to_string(), "D": D, "kernel": kn.name(), "family": fam_name,
         "tier": if thorough { "thorough" } else { "quick" }, "guarantee": format!("{:?}", gu), "n_points": pts.len()});
     if pts.len() <= 200 {
@@ -712,13 +711,9 @@ where
             return;
         }
     };
-    let t_dbg = std::time::Instant::now();
-    if std::env::var("C10_DBG").is_ok() { eprintln!("[{:.1}] built D{} {} n={} cs={}", ctx.elapsed(), D, fam_name, pts.len(), cs); }
     let m = RefModel::from_dt(&dt);
     let gu_now = Guarantee::from_lib(dt.topology_guarantee());
-    let gv_dbg = super::c04::geometrically_valid(&m, gu_now);
-    if std::env::var("C10_DBG").is_ok() { eprintln!("[{:.1}] validity {:?} cells={}", ctx.elapsed(), t_dbg.elapsed(), m.cells.len()); }
-    if !gv_dbg {
+    if !super::c04::geometrically_valid(&m, gu_now) {
         out.count("not_judged/invalid_triangulation");
         return;
     }
@@ -788,9 +783,7 @@ where
     let hints = mk_hints(&mut rng, &geo, &extra, max_live);
     let scale = if strip { 8 } else if thorough { 2 } else { 1 };
     let queries = gen_queries(&mut rng, &geo, scale, out);
-    if std::env::var("C10_DBG").is_ok() { eprintln!("[{:.1}] aux done", ctx.elapsed()); }
     run_queries(ctx, out, &dt, &m, &geo, &queries, &hints, &base, "constructed");
-    if std::env::var("C10_DBG").is_ok() { eprintln!("[{:.1}] queries done", ctx.elapsed()); }
 
     // --- the modified clone with hints that were removed from it
     if d2_ok && !removed_in_d2.is_empty() {
